@@ -98,6 +98,29 @@ Fixpoint calls_in (fuel : nat) (f : string) (ingo : bool) (body : list sk) : boo
   end.
 Definition goroutine_calls (f : string) (body : list sk) : bool := calls_in 40 f false body.
 
+(* is there a call of [f] that is not between Lock m and Unlock m ?  ([held]: m is held on entry; nested blocks
+   inherit the state of the point where they start and do not change it for what follows them) *)
+Fixpoint unlocked_call (fuel : nat) (f m : string) (held : bool) (body : list sk) : bool :=
+  match fuel with
+  | O => true
+  | S fuel' =>
+    match body with
+    | [] => false
+    | s :: rest =>
+        match s with
+        | SLock m' => unlocked_call fuel' f m (held || String.eqb m m') rest
+        | SUnlock m' => unlocked_call fuel' f m (held && negb (String.eqb m m')) rest
+        | SCall g => (negb held && String.eqb f g) || unlocked_call fuel' f m held rest
+        | SGo b => unlocked_call fuel' f m false b || unlocked_call fuel' f m held rest
+        | SDefer b | SCallback b | SFor b | SRange _ b => unlocked_call fuel' f m held b || unlocked_call fuel' f m held rest
+        | SIf b e => unlocked_call fuel' f m held b || unlocked_call fuel' f m held e || unlocked_call fuel' f m held rest
+        | SSelect cases => existsb (fun c => unlocked_call fuel' f m held (snd c)) cases || unlocked_call fuel' f m held rest
+        | _ => unlocked_call fuel' f m held rest
+        end
+    end
+  end.
+Definition call_outside_lock (f m : string) (body : list sk) : bool := unlocked_call 200 f m false body.
+
 (* ------------------------------------------------------------------ *)
 (* Copy table                                                          *)
 (* ------------------------------------------------------------------ *)
@@ -175,7 +198,7 @@ Definition keep_protocol (s : sk) : bool :=
   match s with
   | SSend _ | SRecv _ | SClose _ | SRange _ _ | SWgAdd _ | SWgDone _ | SWgWait _ | SAtomic _ _
   | SBreak _ | SReturn => true
-  | SCall f => names ["cancel"; "Solve"] f
+  | SCall f => names ["cancel"; "Solve"; "WithDeadline"; "WithTimeout"; "WithCancel"] f   (* where the deadline is installed *)
   | _ => false
   end.
 
